@@ -6,13 +6,17 @@
   * `twosample_hodge_equation_53_onesided_pvalue d m n
         = exp(−2z² − 2z(m+2n) / (3√(mn(m+n))))`, `z = d√(mn/(m+n))`        (Hodges 1958, eq. 5.3)
   * `onesample_birnbaum_tingey_onesided_pvalue d n
-        = d Σ_{j=0}^{⌊n(1−d)⌋} C(n,j) (j/n + d)^{j−1} (1 − d − j/n)^{n−j}`   (Birnbaum–Tingey 1951),
-    `C(n,j)` being the abstract `SF.binomial`.
+        = d Σ_{j=0}^{⌊n(1−d)⌋} C(n,j) (j/n + d)^{j−1} (1 − d − j/n)^{n−j}`   (Birnbaum–Tingey 1951)
+    for `d ≠ 0`, `C(n,j)` being the abstract `SF.binomial`; at `d = 0` the code returns exactly `1`
+    (the limit of the formula: its `j = 0` term is `d · d⁻¹ · (1 − d)^n`, which is `0 · ∞` = NaN in
+    `f64` and `0 · 0⁻¹ = 0` over ℝ) — `ks_birnbaum_tingey_zero`, on every carrier.
   `onesample_kolmogorov_twosided_pvalue` (series truncated at `|term| < 1e-10` inside a fuelled
   loop) is left out.
 -/
 import Statrs.Lemmas.Tests
 import Statrs.Gen.T_ks_test
+import Statrs.Inst.Float
+import Statrs.Gen.SFFloat
 namespace Statrs.Props.C17
 open Statrs Statrs.Gen Statrs.Lemmas.Tests
 open Finset
@@ -46,13 +50,43 @@ theorem list_range_map_sum (f : ℕ → ℝ) (m : ℕ) : ((List.range m).map f).
 theorem wrapI32_small (j : ℤ) (h0 : 0 ≤ j) (h1 : j < 2147483648) : wrapI32 j = j := by
   unfold wrapI32; omega
 
-/-- Birnbaum–Tingey: `d · Σ_{j=0}^{⌊n(1−d)⌋} C(n,j) (j/n + d)^{j−1} (1 − d − j/n)^{n−j}` -/
+section zero
+variable {α : Type} [Add α] [Sub α] [Mul α] [Div α] [Neg α] [LT α] [LE α] [BEq α]
+  [DecidableLT α] [DecidableLE α] [OfScientific α] [Inhabited α] [RFun α] [SF α]
+
+/-- no deviation at all: the one-sided p-value at `d = 0` is exactly `1.0`, whatever `n` — on
+    every carrier (`d` only has to compare equal to `0.0`: for IEEE `Float`, `d = ±0.0`).  The
+    series is not evaluated there (its `j = 0` term would be `0 · 0⁻¹ · 1`: `0 · ∞ = NaN` in `f64`). -/
+theorem ks_birnbaum_tingey_zero (d n : α) (hd : (d == (0.0 : α)) = true) :
+    T.ks_test.onesample_birnbaum_tingey_onesided_pvalue (α := α) d n = (1.0 : α) := by
+  unfold T.ks_test.onesample_birnbaum_tingey_onesided_pvalue
+  rw [if_pos hd]
+
+end zero
+
+/-- non-vacuity over IEEE `Float`: both zeros compare equal to `0.0`, so the p-value is `1.0`
+    (not NaN) at `d = 0.0` and at `d = -0.0` -/
+example (n : Float) : T.ks_test.onesample_birnbaum_tingey_onesided_pvalue (α := Float) 0.0 n = 1.0 ∧
+    T.ks_test.onesample_birnbaum_tingey_onesided_pvalue (α := Float) (-0.0) n = 1.0 :=
+  ⟨ks_birnbaum_tingey_zero _ n (by decide), ks_birnbaum_tingey_zero _ n (by decide)⟩
+
+/-- carrier ℝ: the p-value at `d = 0` is `1` for every `n` -/
+theorem ks_birnbaum_tingey_zero_real [SF ℝ] (n : ℝ) :
+    T.ks_test.onesample_birnbaum_tingey_onesided_pvalue (α := ℝ) 0 n = 1 := by
+  rw [ks_birnbaum_tingey_zero (0 : ℝ) n (by rw [real_beq]; norm_num)]; norm_num
+
+/-- Birnbaum–Tingey: `1` at `d = 0`, else
+    `d · Σ_{j=0}^{⌊n(1−d)⌋} C(n,j) (j/n + d)^{j−1} (1 − d − j/n)^{n−j}` -/
 theorem ks_birnbaum_tingey_eq [SF ℝ] (d : ℝ) (N : ℕ) (hN : N < 2147483648) (hd0 : 0 ≤ d) (hd1 : d ≤ 1) :
     T.ks_test.onesample_birnbaum_tingey_onesided_pvalue (α := ℝ) d (N : ℝ)
-      = d * ∑ j ∈ range (⌊(N : ℝ) * (1 - d)⌋₊ + 1),
+      = if d = 0 then 1 else d * ∑ j ∈ range (⌊(N : ℝ) * (1 - d)⌋₊ + 1),
           (SF.binomial (N : ℤ) (j : ℤ) : ℝ) * ((j : ℝ) / N + d) ^ ((j : ℤ) - 1)
             * (1 - d - (j : ℝ) / N) ^ ((N : ℤ) - (j : ℤ)) := by
+  by_cases hdz : d = 0
+  · rw [if_pos hdz, hdz]; exact ks_birnbaum_tingey_zero_real _
+  rw [if_neg hdz]
   unfold T.ks_test.onesample_birnbaum_tingey_onesided_pvalue
+  rw [if_neg (by rw [real_beq]; norm_num; exact hdz)]
   simp only [bt_loop]
   congr 1
   have hfl : (0:ℝ) ≤ (N : ℝ) * (1 - d) := mul_nonneg (Nat.cast_nonneg _) (by linarith)
@@ -87,7 +121,7 @@ theorem ks_birnbaum_tingey_eq [SF ℝ] (d : ℝ) (N : ℕ) (hN : N < 2147483648)
 example [SF ℝ] : T.ks_test.onesample_birnbaum_tingey_onesided_pvalue (α := ℝ) (1 / 2) ((4 : ℕ) : ℝ)
     = (1 / 2) * ∑ j ∈ range (⌊((4 : ℕ) : ℝ) * (1 - 1 / 2)⌋₊ + 1),
         (SF.binomial ((4 : ℕ) : ℤ) (j : ℤ) : ℝ) * ((j : ℝ) / (4 : ℕ) + 1 / 2) ^ ((j : ℤ) - 1)
-          * (1 - 1 / 2 - (j : ℝ) / (4 : ℕ)) ^ (((4 : ℕ) : ℤ) - (j : ℤ)) :=
-  ks_birnbaum_tingey_eq (1 / 2) 4 (by norm_num) (by norm_num) (by norm_num)
+          * (1 - 1 / 2 - (j : ℝ) / (4 : ℕ)) ^ (((4 : ℕ) : ℤ) - (j : ℤ)) := by
+  rw [ks_birnbaum_tingey_eq (1 / 2) 4 (by norm_num) (by norm_num) (by norm_num), if_neg (by norm_num)]
 
 end Statrs.Props.C17
